@@ -180,6 +180,16 @@ def p_ext_call_result(I, args, kwargs, node):
     return rs[k]['result'] if k < len(rs) else VStr(z3.String('no_such_ext_result'))
 
 
+def p_ext_snapshot(I, args, kwargs, node):
+    """value an expression of the caller's state had when the k-th external call `name` was made"""
+    nm, k, x = [_m.concretise(a) for a in args]
+    rs = [r for r in I.ghost.get('ext_trace', []) if r['name'] == nm]
+    if k < len(rs) and x in rs[k].get('snapshot', {}):
+        return rs[k]['snapshot'][x]
+    return VStr(z3.String('no_such_ext_snapshot'))
+
+
+PRIMS['ext_snapshot'] = p_ext_snapshot
 PRIMS.update({'ext_names': p_ext_names, 'ext_index': p_ext_index, 'ext_raised_in': p_ext_raised_in,
               'ext_call_arg': p_ext_call_arg, 'ext_call_result': p_ext_call_result})
 
